@@ -56,6 +56,7 @@ def run_variant(arg):
         env = dict(os.environ)
         env["PYTHONHASHSEED"] = hashseed
         env["PYTHONPATH"] = core.repo_dir() + os.pathsep + core.VERIF_DIR
+        env.update(seg.get("_env") or {})
         try:
             r = subprocess.run([sys.executable, "-m", "vp.segcli", sp, op], env=env, cwd=core.VERIF_DIR, timeout=300, capture_output=True, text=True)
         except subprocess.TimeoutExpired:
@@ -249,6 +250,40 @@ def self_accept_job(arg):
     return rep
 
 
+def tz_job(arg):
+    """A kept call with date / time arguments evaluated in interpreters with different local time zones (TZ): one signature."""
+    idx = arg
+    rep = core.Report("C03")
+    P = "c3tz%d" % idx
+    files = {P + "/__init__.py": "# pkg\n",
+             P + "/top.py": "import dds\nfrom vp import vlog\n\n\ndef at(when, day, span=None):\n    vlog.hit('at')\n    return ('at', when.isoformat(), day.isoformat(), span)\n"}
+    ent = {"style": "keep", "path": "/c3/tz", "module": P + ".top", "func": "at", "args_src": "(datetime.datetime(2024, 1, 2, 12, 0), datetime.date(2024, 1, 2))", "kwargs_src": "{'span': datetime.timedelta(hours=3)}"}
+    with core.Scratch("vp_c03z_") as td:
+        root = os.path.join(td, "code")
+        os.makedirs(root)
+        variants = []
+        for tz in (None, "UTC", "JST-9", "EST5EDT", "Asia/Tokyo"):
+            seg = {"mode": "impl", "root": root, "accept": [P], "steps": [{"write": files, "how": "import", "modules": [P + ".top"], "entry": ent}], "store": {"kind": "local", "dir": os.path.join(td, "store_%s" % (tz or "unset").replace("/", "_"))},
+                   "options": {}, "chdir": None, "_env": {"TZ": tz} if tz else {}}
+            variants.append(("TZ=%s" % tz, seg, "0", -1))
+        results = [run_variant(v) for v in variants]
+    sigs = {}
+    for name, err, m in results:
+        rep.count("variants_run")
+        if err or not m:
+            rep.inconclusive.append("time-zone job, variant %s: %s" % (name, err or m))
+            continue
+        rep.count("map_comparisons")
+        sigs[name] = m.get("refused") or m["all_paths"].get("/c3/tz")
+    rep.evaluations = len(results)
+    if len(set(map(repr, sigs.values()))) > 1:
+        rep.violate("a kept call with datetime / date / timedelta arguments: the outcome depends on the time zone of the process: %r" % dict((k, (v[:10] if isinstance(v, str) else v)) for k, v in sigs.items()),
+                    {"tz": True, "idx": idx}, mechanism="variant:time-zone")
+    elif len(sigs) == len(results):
+        rep.nontriv(("c03tz", idx))
+    return rep
+
+
 def corpus_job(arg):
     entry = arg
     rep = core.Report("C03")
@@ -349,9 +384,10 @@ def run(tier, seed):
         rep.inconclusive.append("pinned corpus missing")
 
     jobs.append(("self", seed))
+    jobs.append(("tz", seed))
 
     def dispatch(j):
-        return {"prog": program_job, "corpus": corpus_job, "self": self_accept_job}[j[0]](j[1])
+        return {"prog": program_job, "corpus": corpus_job, "self": self_accept_job, "tz": tz_job}[j[0]](j[1])
 
     results = core.fork_map(dispatch, jobs, timeout=1200)
     for j, r in zip(jobs, results):
@@ -369,6 +405,9 @@ def replay(payload):
     c = payload["case"]
     if c.get("self_accept"):
         rep.merge(self_accept_job(c["idx"]))
+        return rep
+    if c.get("tz"):
+        rep.merge(tz_job(c["idx"]))
         return rep
     if "program" in c:
         others = [progs.random_program(core.rng_for(0, "c03o", i), "c3o%d" % i) for i in range(8)]
